@@ -11,7 +11,7 @@ Everything is over `Rat`.  The code normalises vectors (`x / np.linalg.norm(x)`)
 * uses the closed form of the Rodrigues matrix for the angle between two unit vectors
   (`rodrigues`), which is rational in the inputs; `rotationMatrix s c w` is the formula of
   `rotation_matrix(a, vect)` itself with `s = sin a`, `c = cos a`, `w = vect/|vect|` as parameters.
-  `Lemmas.rotationMatrix_eq_rodrigues` shows that the two coincide when `s = |n × ref|`,
+  `Props.rotationMatrix_eq_rodrigues` shows that the two coincide when `s = |n × ref|`,
   `c = n · ref` (what `sin (arccos c)`, `cos (arccos c)` are; that trigonometric step is outside).
 
 Vectors of length 3 / 2 and 3×3 / 2×2 matrices are explicit tuples.
@@ -146,7 +146,11 @@ deriving DecidableEq, Repr
 
 /-- `compute_normal(pts, tol)` without its final normalisation.  `v1` = longest centred vector,
     `vk` = centred vector with the longest cross product with `v1`; the collinearity test
-    `allclose(normal, 0, atol = tol·|v1|·|vk|)` is taken squared. -/
+    `allclose(normal, 0, atol = tol·scaling)` is taken squared.  The model follows the PROPERTY
+    (documented contract: collinear points raise): `scaling = |v1|²`, i.e. every point is closer
+    than `tol·|v1|` to the line through the centre along `v1`.  The code scales with `|v1|·|vk|`,
+    which lets exactly collinear sets through when `vk` is a point at the centre (zero up to
+    rounding, arbitrary direction) — finding `plane:collinear-accepted`. -/
 def computeNormal (tol : Rat) (pts : List V3) : NormalRes :=
   if pts.length ≤ 2 then .tooFew else
   match centered pts with
@@ -155,7 +159,7 @@ def computeNormal (tol : Rat) (pts : List V3) : NormalRes :=
     let v1 := maxBy normSq v0 vs
     let vk := maxBy (fun v => normSq (cross v1 v)) v0 vs
     let nrm := cross v1 vk
-    let bound := tol * tol * (normSq v1 * normSq vk)
+    let bound := tol * tol * (normSq v1 * normSq v1)
     if nrm.x * nrm.x ≤ bound ∧ nrm.y * nrm.y ≤ bound ∧ nrm.z * nrm.z ≤ bound then .collinear
     else .ok nrm v1 vk
 
